@@ -467,8 +467,12 @@ pub struct GenCfg {
     pub hints: bool,
     /// allow RecomposeExt modes other than via-ALU (needs the recompose table enabled)
     pub recompose_npo: bool,
-    /// allow Horner steps
-    pub horner: bool,
+    /// Horner steps: 0 = none, 1 = proper chains only (start at constant zero, each step's
+    /// accumulator is the previous step's output, intermediate outputs unused elsewhere), 2 = any
+    pub horner: u8,
+    /// after generation, give every private input at least one ALU use (so that key generation can
+    /// assign it a bus creator)
+    pub claim_privates: bool,
     /// allow div
     pub div: bool,
     /// allow aliasing shapes known to be unprovable (public/public, public/const connects)
@@ -476,7 +480,7 @@ pub struct GenCfg {
 }
 impl Default for GenCfg {
     fn default() -> Self {
-        Self { min_calls: 3, max_calls: 40, hints: true, recompose_npo: false, horner: true, div: true, creator_aliasing: true }
+        Self { min_calls: 3, max_calls: 40, hints: true, recompose_npo: false, horner: 2, claim_privates: false, div: true, creator_aliasing: true }
     }
 }
 
@@ -486,6 +490,8 @@ struct Slot<EF> {
     base: bool,
     /// 0 = const, 1 = public, 2 = private, 3 = computed, 4 = hint output
     origin: u8,
+    /// not to be picked as an operand (intermediate output of a proper Horner chain)
+    excluded: bool,
 }
 
 pub struct Gen<'a, BF: PrimeField64, EF: ExtensionField<BF>> {
@@ -505,7 +511,7 @@ impl<'a, BF: PrimeField64, EF: ExtensionField<BF>> Gen<'a, BF, EF> {
     fn push_val(&mut self, val: EF, origin: u8) -> usize {
         let is_bool = val == EF::ZERO || val == EF::ONE;
         let base = is_base::<BF, EF>(&val);
-        self.arena.push(Slot { val, is_bool, base, origin });
+        self.arena.push(Slot { val, is_bool, base, origin, excluded: false });
         self.arena.len() - 1
     }
     fn emit_const(&mut self, v: EF) -> usize {
@@ -537,14 +543,16 @@ impl<'a, BF: PrimeField64, EF: ExtensionField<BF>> Gen<'a, BF, EF> {
     fn any(&mut self) -> usize {
         // bias to recent values so that chains form
         let n = self.arena.len();
-        if n > 4 && self.rng.chance(1, 2) {
-            n - 1 - self.rng.usize_below(4)
-        } else {
-            self.rng.usize_below(n)
+        for _ in 0..16 {
+            let i = if n > 4 && self.rng.chance(1, 2) { n - 1 - self.rng.usize_below(4) } else { self.rng.usize_below(n) };
+            if !self.arena[i].excluded {
+                return i;
+            }
         }
+        (0..n).find(|i| !self.arena[*i].excluded).unwrap_or(0)
     }
     fn any_where(&mut self, f: impl Fn(&Slot<EF>) -> bool) -> Option<usize> {
-        let idx: Vec<usize> = (0..self.arena.len()).filter(|i| f(&self.arena[*i])).collect();
+        let idx: Vec<usize> = (0..self.arena.len()).filter(|i| !self.arena[*i].excluded && f(&self.arena[*i])).collect();
         if idx.is_empty() { None } else { Some(*self.rng.pick(&idx)) }
     }
     fn v(&self, i: usize) -> EF {
@@ -612,7 +620,7 @@ impl<'a, BF: PrimeField64, EF: ExtensionField<BF>> Gen<'a, BF, EF> {
                 self.calls.push(Call::MulAdd(a, b, c));
                 self.push_val(v, 3);
             }
-            48..=55 if self.cfg.horner => self.horner_shape(),
+            48..=55 if self.cfg.horner > 0 => self.horner_shape(),
             56..=59 => {
                 // assert_bool on a boolean value (fresh boolean input most of the time)
                 let i = if self.rng.chance(2, 3) {
@@ -643,7 +651,27 @@ impl<'a, BF: PrimeField64, EF: ExtensionField<BF>> Gen<'a, BF, EF> {
                 let dsub = self.op2(1, a, a2);
                 self.calls.push(Call::AssertZero(dsub));
             }
-            79..=81 => {
+            79 => {
+                // all products first, then a running sum (optionally onto a seed): chains of
+                // mul+add fusion candidates whose addends are other candidates' outputs
+                let n = self.rng.range(2, 6);
+                let prods: Vec<usize> = (0..n)
+                    .map(|_| {
+                        let (a, b) = (self.any(), self.any());
+                        self.op2(2, a, b)
+                    })
+                    .collect();
+                let mut acc = if self.rng.chance(2, 3) {
+                    let r = self.any();
+                    self.op2(0, r, prods[0])
+                } else {
+                    prods[0]
+                };
+                for m in &prods[1..] {
+                    acc = if self.rng.chance(1, 2) { self.op2(0, acc, *m) } else { self.op2(0, *m, acc) };
+                }
+            }
+            80..=81 => {
                 let n = self.rng.range(0, 4);
                 let v: Vec<usize> = (0..n).map(|_| self.any()).collect();
                 let val = v.iter().fold(EF::ONE, |acc, i| acc * self.v(*i));
@@ -725,7 +753,7 @@ impl<'a, BF: PrimeField64, EF: ExtensionField<BF>> Gen<'a, BF, EF> {
                     bv[i] = BF::ONE;
                     val += self.v(*c) * EF::from_basis_coefficients_slice(&bv).unwrap();
                 }
-                let mode = if self.cfg.recompose_npo { self.rng.below(3) as u8 } else { 2 };
+                let mode = if self.cfg.recompose_npo { *self.rng.pick(&[0u8, 0, 2]) } else { 2 };
                 self.calls.push(Call::RecomposeExt(cs, mode));
                 self.push_val(val, 3);
             }
@@ -748,7 +776,7 @@ impl<'a, BF: PrimeField64, EF: ExtensionField<BF>> Gen<'a, BF, EF> {
     /// Horner shapes: chains, broken chains, same (alpha,pz,px) with different accumulators,
     /// two chains back to back, accumulators that are not a previous step.
     fn horner_shape(&mut self) {
-        let shape = self.rng.below(5);
+        let shape = if self.cfg.horner == 1 { 5 } else { self.rng.below(6) };
         let steps = self.rng.range(1, 5);
         let emit = |g: &mut Self, acc: usize, al: usize, pz: usize, px: usize| -> usize {
             let v = g.v(acc) * g.v(al) + g.v(pz) - g.v(px);
@@ -756,8 +784,21 @@ impl<'a, BF: PrimeField64, EF: ExtensionField<BF>> Gen<'a, BF, EF> {
             g.push_val(v, 3)
         };
         match shape {
+            5 => {
+                // proper chain: starts at the constant zero, operands chosen before the chain so
+                // that the steps are emitted consecutively, intermediate outputs never reused
+                let al = self.any();
+                let ops: Vec<(usize, usize)> = (0..steps).map(|_| (self.any(), self.any())).collect();
+                let mut acc = self.emit_const(EF::ZERO);
+                for (k, (pz, px)) in ops.iter().enumerate() {
+                    acc = emit(self, acc, al, *pz, *px);
+                    if k + 1 < steps {
+                        self.arena[acc].excluded = true;
+                    }
+                }
+            }
             0 | 1 => {
-                // proper chain, shared alpha
+                // chain with arbitrary start, shared alpha
                 let al = self.any();
                 let mut acc = self.any();
                 for _ in 0..steps {
@@ -909,6 +950,13 @@ pub fn generate<BF: PrimeField64, EF: ExtensionField<BF>>(rng: &mut Rng, cfg: &G
     g.emit_const(v);
     while g.calls.len() < target {
         g.step();
+    }
+    if cfg.claim_privates {
+        let privs: Vec<usize> = (0..g.arena.len()).filter(|i| g.arena[*i].origin == 2).collect();
+        for p in privs {
+            let x = g.rng.usize_below(3);
+            g.op2(0, p, x);
+        }
     }
     Program { calls: g.calls, publics: g.publics, privates: g.privates }
 }
